@@ -412,7 +412,7 @@ func (c *ctx) scenC06Near() {
 	names := listSuites()
 	pickSuite := func() suiteArg {
 		if len(names) > 0 && c.rng.Intn(2) == 0 {
-			if sa, err := rawSuiteArg(names[c.rng.Intn(len(names))]); err == nil {
+			if sa, err := rawSuiteArg(c.pickName(names)); err == nil {
 				return sa
 			}
 		}
@@ -448,7 +448,7 @@ func (c *ctx) scenC06Near() {
 		cf := c.handBuilt(c.rng.Intn(32)|[]int{1, 2, 8, 16, 4}[i%5], c.rng.Intn(3), 4+c.rng.Intn(7), []byte("OCRA-1:X"))
 		sa := cfgSuiteArg(cf)
 		if i%4 == 0 && len(names) > 0 {
-			if s2, err := rawSuiteArg(names[c.rng.Intn(len(names))]); err == nil {
+			if s2, err := rawSuiteArg(c.pickName(names)); err == nil {
 				sa, cf = s2, s2.su.Cfg
 			}
 		}
@@ -794,6 +794,9 @@ func scenC15(c *ctx) {
 	// mutations of advertised names (one character changed)
 	for _, name := range listSuites() {
 		b := []byte(name)
+		if len(b) == 0 {
+			continue
+		}
 		k := c.rng.Intn(len(b))
 		b[k] = "0123456789ACHNPQST-:"[c.rng.Intn(20)]
 		emit("mutadv", string(b), false)
@@ -806,7 +809,7 @@ func (c *ctx) ocraSpellingGroups(i int, key []byte, sp []string, group func(mk f
 	if len(names) == 0 {
 		return
 	}
-	sa, err := rawSuiteArg(names[c.rng.Intn(len(names))])
+	sa, err := rawSuiteArg(c.pickName(names))
 	if err != nil {
 		return
 	}
@@ -825,7 +828,7 @@ func (c *ctx) ocraC13(i int, key []byte, secret string) {
 	if len(names) == 0 {
 		return
 	}
-	sa, err := rawSuiteArg(names[c.rng.Intn(len(names))])
+	sa, err := rawSuiteArg(c.pickName(names))
 	if err != nil {
 		return
 	}
